@@ -570,6 +570,10 @@ GENERATED_HEADERS = [
     ("near-nospace", "//Code generated by protoc. DO NOT EDIT.\n\n", False),
     ("near-block", "/* Code generated by protoc. DO NOT EDIT. */\n\n", False),
     ("near-trailing", "// Code generated by protoc. DO NOT EDIT. really\n\n", False),
+    ("near-overlap", "// Code generated DO NOT EDIT.\n\n", False),          # prefix and suffix would share the one space
+    ("gen-empty-middle", "// Code generated  DO NOT EDIT.\n\n", True),      # two spaces: nothing between prefix and suffix
+    ("near-tab", "// Code generated\tby x. DO NOT EDIT.\n\n", False),
+    ("near-crlf-free-cr", "// Code generated by x. DO NOT EDIT. \n\n", False),  # trailing blank
     ("at-detached", "// @generated by foo\n\n", False),
     ("gen-in-block", "/*\n// Code generated by x. DO NOT EDIT.\n*/\n\n", True),
     ("gen-with-buildtag", "//go:build linux\n\n// Code generated by x. DO NOT EDIT.\n\n", True),
@@ -1619,7 +1623,10 @@ def c16(ctx):
     for args, must in ((["-p", "p.patch", "nonexist.go", "a.go"], ["nonexist.go", "no such file"]),
                        (["-p", "missing.patch", "a.go"], ["missing.patch", "no such file"]),
                        (["-P", "list.txt", "a.go"], ["nope.patch", "no such file"]),
-                       (["-p", "p.patch", "a.go", "nodir/..."], ["nodir", "no such file"])):
+                       (["-p", "p.patch", "a.go", "nodir/..."], ["nodir", "no such file"]),
+                       (["-p", "p.patch", ".", "sub/missing.go"], ["missing.go", "no such file"]),
+                       (["-p", "p.patch", "./...", "vendor/lib/missing.go"], ["missing.go", "no such file"]),
+                       (["-p", "p.patch", ".", "./nodir"], ["nodir", "no such file"])):
         before = cl.digest(root)
         code, out, err = cl.gopatch(ctx.gopatch, root, args + ["--print-only"])
         ctx.evaluations += 1
@@ -1949,11 +1956,12 @@ def front_cases_with_faults(ctx, rng, n):
                 lines.append(rng.choice(["", "# a comment", "   # indented comment", "#"] if ci > 0 else ["# a comment", "   # indented comment", "#"]))
             lines += desc
             if ci == fault_at and kind == "badname":
-                name = rng.choice(["na!me", "9lives", "a b", "x-y", "ok$", "@"])
+                name = rng.choice(["na!me", "9lives", "a b", "x-y", "ok$", "@", "größe-fix", "naïve!x", "日本-x", "é9 z", "ß$"])
                 pad = " " * rng.randint(0, 3)
                 header = "@" + pad + name + " @"
                 bad = next(i for i, ch in enumerate(name) if not (ch.isalpha() or ch == "_" or (i > 0 and ch.isdigit())))
-                expect = (len(lines) + 1, 1 + 1 + len(pad) + bad, "badname")
+                # columns count bytes: letters outside ASCII in front of the offending character are wider than one
+                expect = (len(lines) + 1, 1 + 1 + len(pad) + len(name[:bad].encode("utf-8")), "badname")
             if ci == fault_at and kind == "junk" and ci == 0:
                 lines.append("junk here")
                 expect = (len(lines), 1, "badheader")
